@@ -172,9 +172,7 @@ func runC01(p *Prog, r *Report) {
 	checkConfiguredWeightFollows(p, r, "C01.R10")
 	// R9: one record per server and only valid weights in the pool: identity compares URL fields exactly, a refused option changes nothing (shared with C02.R4 / C02.R9)
 	r.Borrow(p, runC02, map[string]string{"C02.R4": "C01.R9", "C02.R9": "C01.R9"}, nil)
-	r.Borrow(p, runC02, map[string]string{"C02.R5": "C01.R9"}, func(o Ob) bool {
-		return strings.Contains(o.Construct, "never edited in place") || strings.Contains(o.Construct, "stored into a new record")
-	})
+	r.Borrow(p, runC02, map[string]string{"C02.R5": "C01.R9", "C02.R1": "C01.R9"}, nil)
 	// R8: nothing restarts the rotation while the pool is unchanged: the rebalancer re-applies weights only after changing one (shared with C10.R3)
 	r.Borrow(p, runC10, map[string]string{"C10.R3": "C01.R8"}, func(o Ob) bool { return strings.Contains(o.Construct, "applies weights only after changing") })
 	ri := resolveRR(p, r, "C01.R0")
